@@ -133,6 +133,13 @@ def generate(rng, tier):
     init_ids = rng.sample(order, min(n_init, len(order)))
     init_flat = {sid: descr_for(sid) for sid in init_ids}
     init = colorgen.nest(init_flat, rng)
+    if not init and rng.random() < 0.5:
+        init = None
+    elif rng.random() < 0.1:
+        # values that are neither descriptions nor groups are ignored by the configuration
+        init["JUNK.NUM"] = 5
+        init["JUNK.LIST"] = ["RED"]
+        init["JUNK.NONE"] = None
     # delivery schedule
     deliveries = [{"op": "use", "comp": c["name"], "no_color": rng.random() < 0.15} for c in comps]
     deliveries += [{"op": "use", "comp": n, "no_color": rng.random() < 0.15} for n in real_used]
@@ -174,11 +181,11 @@ def generate(rng, tier):
 
 def simplify(trace):
     """shrink candidates beyond dropping ops: fewer explicit items, fewer components, smaller batches"""
-    flat = flatten(trace["init"])
+    flat = flatten(trace["init"] or {})
     for k in sorted(flat):
         rest = {a: b for a, b in flat.items() if a != k}
         yield dict(trace, init=rest)
-    if flat != trace["init"]:
+    if trace["init"] is not None and flat != trace["init"]:
         yield dict(trace, init=flat)
     used = {op.get("comp") for op in trace["ops"]}
     needed = set()
@@ -423,7 +430,7 @@ def full_set_is_acyclic(world, trace):
     """guard: the generated set must be acyclic also together with the real defaults"""
     reg = Registry()
     try:
-        reg.deliver(flatten(trace["init"]))
+        reg.deliver(flatten(trace["init"] or {}))
         reg.deliver(world.builtin_flat)
         for op in trace["ops"]:
             if op["op"] == "use" and (op["comp"] in REAL or op["comp"] in world.comp_spec):
@@ -457,11 +464,11 @@ def execute(trace, rng):
         nc = w.no_color
         M = w.sut("ColorsConfig(init)", color.ColorsConfig, trace["init"], no_color=nc)
         regM = Registry()
-        regM.deliver(flatten(trace["init"]))
+        regM.deliver(flatten(trace["init"] or {}))
         before = {sid: regM.is_resolved(sid) for sid in regM.items}
         regM.deliver(w.builtin_flat)
         w.count_late(regM, before)
-        w.stats["explicit_wins"] += sum(1 for sid in flatten(trace["init"]) if sid in w.builtin_flat)
+        w.stats["explicit_wins"] += sum(1 for sid in flatten(trace["init"] or {}) if sid in w.builtin_flat)
         # the import-time global configuration: built-ins only
         G = color.get_global_colors_config()
         regG = Registry()
